@@ -15,3 +15,5 @@ import CalmVerif.Props.C18
 #check @CalmVerif.IO.write_text_is_printer_text
 #check @CalmVerif.IO.write_content_is_printer_text
 #check @CalmVerif.IO.map_text_is_lowlevel_map
+#print axioms CalmVerif.IO.url_verbatim_unless_both_absolute
+#check @CalmVerif.IO.url_verbatim_unless_both_absolute
